@@ -250,7 +250,8 @@ class StrainLevel(FragmentTask):
 
 
 def parent_tasks(tier):
-    return [StrainTask(FILES[0]), StrainTask(FILES[1]), StrainTaskList(), StrainScatter(), StrainLevel()]
+    from props.scatter_u import colander_scatter
+    return [StrainTask(FILES[0]), StrainTask(FILES[1]), StrainTaskList(), StrainScatter(), StrainLevel(), colander_scatter()]
 
 
 def parent_canaries():
